@@ -557,3 +557,41 @@ def wire_rule(P, E, H, scope=None):
     if n < 45 and scope is None:
         r.error("WIRE: only %d operator methods of the Op::new(..).execute(self) family found (floor 45)" % n)
     return r
+
+
+def reg_all(P, E, H):
+    """Every input an operator subscribes from code that owns a StreamController is subscribed with an observer REGISTERED in that controller
+    (`sctl.new_observer(..)`): finalize() unsubscribes exactly what is registered, so an input behind a bare `Observer::new(..)` is never cut
+    when the stream ends - it stays subscribed (a hot trigger keeps the operator's closures for good, an interval keeps its thread)."""
+    r = RuleResult("REG-ALL", "operators subscribe their inputs only with observers registered in their StreamController")
+    n = 0
+    for c in E.sites["create"]:
+        cl = c.arg_closure(0)
+        sb = P.bodies.get(cl) if cl else None
+        if sb is None or not norm(sb.root).startswith("operators::"):
+            continue
+        scope = [sb] + P.descendants(sb)
+        if not any(atom(k) == "sctl_new" or k.path.endswith("StreamController::new") for b in scope for k in b.calls):
+            continue
+        for b in scope:
+            for k in b.calls:
+                if atom(k) != "subscribe" or not k.path.endswith("::inner_subscribe") or len(k.args) < 2:
+                    continue
+                n += 1
+                kinds = set()
+                for t in b.operand_prov(k.args[1]):
+                    for g in P.global_cell(b, t, through_helpers=True):
+                        gb = P.bodies[g[0]]
+                        if g[1] == "ret":
+                            kc = gb.call_at(g[2])
+                            kinds.add(atom(kc) or (kc.path if kc is not None else "?"))
+                        else:
+                            kinds.add(g[1])
+                r.instance((H.type_root(P.bodies.get(sb.root) or sb), "registered input", b.nid), True, "observer from %s" % sorted(kinds))
+                if "observer_new" in kinds:
+                    r.violate((H.type_root(P.bodies.get(sb.root) or sb), "input subscribed with an unregistered observer"),
+                              "%s subscribes an input with a bare Observer::new(..) although it owns a StreamController: that input is not in the "
+                              "controller's registry, so nothing unsubscribes it when the stream ends" % b.nid, body=b, line=k.line)
+    if n < 40:
+        r.error("REG-ALL: only %d inner_subscribe sites in operators with a StreamController (floor 40)" % n)
+    return r
